@@ -267,6 +267,9 @@ void w_reinit(int fillmode)
 {
         W.fillmode = fillmode;
         W.at = xalloc(sizeof *W.at);
+#ifdef VERIF_MSAN
+        fillmode = 2;
+#endif
         if (fillmode != 2) {                  /* 2: leave object and buffers as malloc returned them (MSan runs) */
                 fill(W.at, sizeof *W.at, fillmode);
                 fill(W.buf, W.bufsz, fillmode);
@@ -477,6 +480,7 @@ void cat_verif_phase(struct cat_object *self, int code)
 {
         (void)self;
         if (self != W.at) return;
+        if (!RAW_COMPARES) { if (code <= 2) PHASE = code; ev(EV_PHASE, code, 0, 0); if (ON_PHASE) ON_PHASE(code); return; }
         if (code == 1) {
                 if (W.capA <= sizeof snapA) memcpy(snapA, W.bufA, W.capA);
         } else if (code == 2) {
